@@ -230,6 +230,31 @@ func c15Validate(cs c15Case) (reason, refTag int, rejected bool, parseErr error)
 	if parseErr != nil {
 		return
 	}
+	if cs.Reuse {
+		// the same Validator object has judged other messages before (a session keeps one for its lifetime): the
+		// long defective message, and this very message with its last field carried twice and with an undefined tag
+		// appended (both rejected late, during the ordered walk)
+		if sm, err := fixscan.Scan(raw); err == nil && len(sm.Fields) > 4 {
+			core := append([]fixscan.Field{sm.Fields[0]}, sm.Fields[2:len(sm.Fields)-1]...) // without 9 and 10
+			last := core[len(core)-1]
+			for _, pf := range [][]fixscan.Field{append(append([]fixscan.Field{}, core...), last), append(append([]fixscan.Field{}, core...), fixscan.Field{Tag: 4998, Value: "zz"})} {
+				pm := quickfix.NewMessage()
+				var perr error
+				if strings.HasPrefix(cs.Dict, "FIX50") || cs.Dict == "FIXT11" {
+					appd := app
+					if cs.Dict == "FIXT11" {
+						appd = c13Dicts["FIX50SP2"]
+					}
+					perr = quickfix.ParseMessageWithDataDictionary(pm, bytes.NewBuffer(fixscan.Build(pf)), c13Dicts["FIXT11"], appd)
+				} else {
+					perr = quickfix.ParseMessageWithDataDictionary(pm, bytes.NewBuffer(fixscan.Build(pf)), nil, app)
+				}
+				if perr == nil {
+					_ = v.Validate(pm)
+				}
+			}
+		}
+	}
 	rej := v.Validate(msg)
 	if rej == nil {
 		return 0, 0, false, nil
@@ -413,7 +438,7 @@ func runC15(c *core.Ctx) {
 		c.EngineError(err.Error())
 		return
 	}
-	c.SetRule("for every message type of every shipped dictionary: conforming messages (required-only; plus each optional top-level field singly; plus each group with 1 and 2 entries) and every single-defect mutant (each required field removed; undefined tags <5000 and >=5000 at the body boundaries; each typed field with an ill-typed value; each enumerated field with a non-member; each group count +-1 and 0 with entries following; group members swapped; each required member of a group removed from the first and from the last of two entries; every optional header field (enumerated ones with each value) conforming, ill-typed and out of enumeration; header field in body; body field after a trailer field; each field duplicated; each value emptied; unknown MsgType), judged under all 32 combinations of validator settings; under the default and the all-off settings also parsed into a Message object that parsed a long defective message before; session part: a real logged-on FIX.4.2/4.3/4.4 session whose validator the factory builds from the configuration (each validator setting alone at Y and at N) receives a conforming NewOrderSingle and one mutant of each kind, and the transmitted Reject's reason and RefTagID are judged")
+	c.SetRule("for every message type of every shipped dictionary: conforming messages (required-only; plus each optional top-level field singly; plus each group with 1 and 2 entries) and every single-defect mutant (each required field removed; undefined tags <5000 and >=5000 at the body boundaries; each typed field with an ill-typed value; each enumerated field with a non-member; each group count +-1 and 0 with entries following; group members swapped; each required member of a group removed from the first and from the last of two entries; every optional header field (enumerated ones with each value) conforming, ill-typed and out of enumeration; header field in body; body field after a trailer field; each field duplicated; each value emptied; unknown MsgType), judged under all 32 combinations of validator settings; under the default and the all-off settings also parsed into a Message object that parsed a long defective message before and judged by a Validator object that has rejected two defective variants of the same message before; session part: a real logged-on FIX.4.2/4.3/4.4 session whose validator the factory builds from the configuration (each validator setting alone at Y and at N) receives a conforming NewOrderSingle and one mutant of each kind, and the transmitted Reject's reason and RefTagID are judged")
 	c.Assume("expected reason/tag per defect kind follow the FIX session reject reasons; where the pipeline legitimately reports an equally specific rule first the oracle is set-valued (ill-typed value of an enumerated field: 5 or 6; swapped group members: 15,16,1,2 or 13)",
 		"message types whose MsgType is not in the transport dictionary's enumeration are not conforming and are skipped", "XmlDataLen/XmlData and other LENGTH/DATA pairs are not used as optional singles")
 	settingsList := []int{}
